@@ -15,9 +15,25 @@ func TmplSlotWriter() []byte {
 	return a.Bytes()
 }
 
+// TmplGasGate: calldata = threshold | mode. With at least threshold gas left: SSTORE(0, 1), STOP - cheap work. With
+// less: mode 0 REVERT, mode 1 burn everything (loop until out of gas). The gas limit such a call needs is far above
+// the gas it uses (meta-transaction forwarders, multisig wallets reserve gas like this).
+func TmplGasGate() []byte {
+	a := NewAsm()
+	a.Push(0).Op(vm.CALLDATALOAD, vm.GAS, vm.LT).PushLabel("poor").Op(vm.JUMPI)
+	a.Push(1).Push(0).Op(vm.SSTORE, vm.STOP)
+	a.Label("poor")
+	a.Push(32).Op(vm.CALLDATALOAD).PushLabel("burn").Op(vm.JUMPI)
+	a.Push(0).Push(0).Op(vm.REVERT)
+	a.Label("burn")
+	a.PushLabel("burn").Op(vm.JUMP)
+	return a.Bytes()
+}
+
 func init() {
 	templates["fwd"] = TmplFwd
 	templates["vw"] = TmplViewWit
 	templates["slotw"] = TmplSlotWriter
-	TemplateNames = append(TemplateNames, "fwd", "vw", "slotw")
+	templates["gate"] = TmplGasGate
+	TemplateNames = append(TemplateNames, "fwd", "vw", "slotw", "gate")
 }
